@@ -15,7 +15,7 @@ import (
 func TestC06(t *testing.T) {
 	ev := vlib.NewEvidence("C06", "exploration",
 		"a valid session (2 hosts, 2 clients, 2 wallets) is advanced to a random point; then one refused request (bit-flipped signature, other key, malformed signature, replay of an accepted request, nonce older than the freshness window) is injected against each of the 7 signed endpoints (keep-alives also signed in the deprecated {peers, block_number} form) naming a live victim identity with a nonce far above the victim's; the digest of all RPC-reachable pool state and of the calls seen by fake hosts must be unchanged, and the victim's next correctly signed request with a smaller-but-fresh nonce must pass verification; non-trivial = refused request injected into a session holding balances/peers; distinct = (endpoint, refusal kind, session point); (faults) replays of requests that were in flight together")
-	kinds := []string{"bitflip", "wrong-key", "malformed", "replay", "too-old", "other-registered-identity-same-connection", "replay-under-other-spelling", "replay-while-nonce-store-faults"}
+	kinds := []string{"bitflip", "wrong-key", "malformed", "replay", "too-old", "other-registered-identity-same-connection", "replay-under-other-spelling", "replay-while-nonce-store-faults", "accepted-signature-reused"}
 	points := vlib.Scale(6, 60)
 	for _, driver := range vlib.Drivers() {
 		for pt := 0; pt < points; pt++ {
@@ -158,6 +158,22 @@ func TestC06(t *testing.T) {
 							lw.chaos.ResetCalls()
 							lw.chaos.Fail = func(op string, n int) bool { return op == "CheckAndSaveNonce" }
 						}
+					case "accepted-signature-reused":
+						// the signature of an accepted request of the victim, attached to a request with a
+						// much newer nonce (and freshly drawn parameters)
+						n := w.NextNonce(identity)
+						sig := vlib.RefSign(victim.Key, ep.Method, identity, n, signArgs...)
+						first := guardedCall(w.Local, ep.Method, append([]interface{}{sig, identity, n}, args...)...)
+						if !first.Accepted {
+							ev.Violate("setup:first-copy-refused:"+ep.Method, map[string]interface{}{"err": fmt.Sprint(first.Err), "panic": first.Panic})
+						}
+						ownNonce = n
+						forgedNonce = n + int64(10*time.Minute)
+						args2 := args
+						if format == "" && r.Intn(2) == 0 {
+							args2 = ep.Args(r, identity)
+						}
+						params = append([]interface{}{sig, identity, forgedNonce}, args2...)
 					case "too-old":
 						old := time.Now().Add(-16 * time.Minute).UnixNano()
 						params = append([]interface{}{vlib.RefSign(victim.Key, ep.Method, identity, old, signArgs...), identity, old}, args...)
